@@ -49,9 +49,12 @@ PROPS = {
                lambda c: sched.sched_sibling(c, ('feedback',)),
                lambda c: sched.sched_handover(c, (sched.FB,)),
                lambda c: sched.sched_pair(c, (sched.FB,)),
-               lambda c: sched.key_rebind(c, (sched.FB,)), interp.fb_epoch],
+               lambda c: sched.key_rebind(c, (sched.FB,)), interp.fb_epoch,
+               integrator.buf_rules],
         decided=['the state at an epoch inside a sampling interval is predicted with the elapsed '
                  'fraction of the pending increment',
+                 'the one-row prediction made at every epoch writes inside the history buffers '
+                 '(capacity test on every path to the compiled kernel)',
                  'documented defaults run', 'termination (progress guard)',
                  'every increment handed to the integrator exactly once',
                  'epoch list de-duplicated, clipped to [start, end], sentinel last',
